@@ -51,11 +51,13 @@ package bluemonday
 //@   ensures[C16] outFailed ==> result != nil
 //@   ensures[C16] result == nil ==> tzErr == io.EOF
 //@   requires[textpres] !p.allowUnsafe
+//@   requires[strict] (forall e string :: !(e in p.elsAndAttrs)) && (forall r *regexp.Regexp :: !(r in p.elsMatchingAndAttrs)) && !p.allowComments && !p.allowUnsafe
 //@   at-call (*html.Tokenizer).Next
 //@     assume[textpres] isTagTok(tzCur) ==> normalise(tzCur.Data) != "script" && normalise(tzCur.Data) != "style" && !(tzCur.Data in p.setOfElementsToSkipContent)
 //@   at-call (io.StringWriter).WriteString(w, s)
 //@     assert[C01] emitC01(p, token, s) || (p.allowUnsafe && token.Type == 1 && s == token.Data && isScriptStyle(mostRecentlyStartedToken) && elAllowed(p, mostRecentlyStartedToken))
 //@     assert[C05] emitC05(p, token, tzPrev, s)
+//@     assert[C04,strict] (s == " " && p.addSpaces) || (token.Type == 1 && s == TokString(token, elems(token.Attr)))
 //@   at-call (io.StringWriter).WriteString(w, s) where s from (html.Token).String
 //@     assert[C02] (token.Type == 2 || token.Type == 4) ==> (len(token.Attr) == 0 && bareOK(p, token.Data)) || (len(token.Attr) > 0 && sanEl == token.Data && sanRes == token.Attr)
 //@   loop 0 "for {"
